@@ -400,9 +400,28 @@ func c02Alphabet() []EngOp {
 	}
 }
 
+// c02Shapes: writes that are larger than the log's buffers (a batch above the 64 KiB write buffer, a value above
+// one 32 KiB record) issued behind small writes that may still sit in a buffer, then one more step.
+func c02Shapes(cfg string, env *fw.Env, unit string, res *fw.Result) {
+	bigBatch := EngOp{Kind: "txc", Sub: []EngOp{{Kind: "put", Key: "a", Val: "<big:30000>"}, {Kind: "put", Key: "b", Val: "<big:30000>"}, {Kind: "put", Key: "d", Val: "<big:30000>"}}}
+	bigPut := EngOp{Kind: "put", Key: "b", Val: "<big:70000>"}
+	// the small writes go to a key the large ones do not overwrite
+	small := EngOp{Kind: "put", Key: "c"}
+	smallC := EngOp{Kind: "del", Key: "c"}
+	follow := []EngOp{{Kind: "put", Key: "b"}, {Kind: "del", Key: "a"}, {Kind: "reopen"}, {Kind: "flush"}}
+	for _, first := range [][]EngOp{{small, bigBatch}, {small, smallC, bigBatch}, {small, bigPut}, {bigBatch, bigBatch}} {
+		sp := &c02Spec{Prop: "C02", Cfg: engCfgs[cfg], Alphabet: follow, Depth: len(first) + 1, Keys: []string{"a", "b", "c", "d"}, Torn: true}
+		c02Explore(sp, first, env, unit, res)
+	}
+}
+
 func c02Unit(unit string, env *fw.Env) *fw.Result {
 	res := fw.NewResult()
 	parts := strings.Split(unit, "/")
+	if parts[0] == "shapes" {
+		c02Shapes(parts[1], env, unit, res)
+		return res
+	}
 	var depth, first int
 	fmt.Sscanf(parts[2], "%d", &depth)
 	fmt.Sscanf(parts[3], "%d", &first)
@@ -416,7 +435,7 @@ func init() {
 	fw.Register(&fw.Check{
 		ID:    "C02",
 		Level: "fault_enumeration",
-		Rule: "explicit-state search over engine programs {put a, put b, del a, 2-key commit, flush, bg, reopen, compact} up to the depth per configuration (sync immediate/none/batch, memtable 32 MiB / 1 B incl. max-memtables 2); every file-system call of the run is recorded; for each program every crash state inside its last operation is materialised (all prefixes of the call log, plus torn variants of every write: all lengths for writes <=512 B, else record boundaries +-8, page multiples, first/last 64) and opened with the real engine. Oracle: the recovered state (gets and scan) equals the model after j operations for an admissible j (acked <= j <= issued with synchronous logging, 0 <= j <= issued otherwise, a transaction counts as one operation); then 2 writes, clean close, reopen: state and sequence stamps continue correctly. Non-trivial = crash cuts strictly inside an operation",
+		Rule: "explicit-state search over engine programs {put a, put b, del a, 2-key commit, flush, bg, reopen, compact} up to the depth per configuration (sync immediate/none/batch, memtable 32 MiB / 1 B incl. max-memtables 2); every file-system call of the run is recorded; for each program every crash state inside its last operation is materialised (all prefixes of the call log, plus torn variants of every write: all lengths for writes <=512 B, else record boundaries +-8, page multiples, first/last 64) and opened with the real engine. Oracle: the recovered state (gets and scan) equals the model after j operations for an admissible j (acked <= j <= issued with synchronous logging, 0 <= j <= issued otherwise, a transaction counts as one operation); then 2 writes, clean close, reopen: state and sequence stamps continue correctly. Shape sub-run (sync immediate / none / batch): a 90 KB three-entry commit or a 70 KB put issued behind one or two small writes (or behind another such commit), followed by one of {put, delete, reopen, flush}, same crash enumeration inside the large write and inside the step after it. Non-trivial = crash cuts strictly inside an operation",
 		Assumptions: []string{"process-death crash model: completed writes survive, fsync is irrelevant, power loss is not modelled", "single client; background flush runs at explicit bg steps"},
 		Units: func(tier string) []string {
 			var us []string
@@ -428,6 +447,9 @@ func init() {
 				for i := 0; i < 4; i++ {
 					us = append(us, fmt.Sprintf("prog/%s/%d/%d", cfg, depth[cfg], i))
 				}
+			}
+			for _, cfg := range []string{"big", "bigN", "bigB"} {
+				us = append(us, "shapes/"+cfg)
 			}
 			return us
 		},
